@@ -42,6 +42,13 @@ def build_tbl(
         pieces = yield from utils.map_strict(seq.value)
         pieces = utils.check_type(metadata, pieces, AS.String | AS.Bytes)
 
+        if not pieces:
+            if len(argv) > 1:
+                [empty] = utils.check_type(
+                    metadata, [argv[1]], AS.String | AS.Bytes
+                )
+                return type(empty)(empty.value[:0])
+            return AS.String("")
         if isinstance(pieces[0], AS.String):
             pieces = utils.check_type(metadata, pieces, AS.String)
             delimiter = AS.String("")
